@@ -139,7 +139,8 @@ fn main() {
             }
         },
         "relative" => {
-            let ps = clean_paths(&["a", "b", "c"], 4);
+            // "ab" extends "a" character-wise: a string-prefix test instead of a component-wise one shows up only then
+            let ps = clean_paths(&["a", "ab", "c"], 4);
             for p in &ps {
                 for b in &ps {
                     if mine(&mut id) {
@@ -148,7 +149,7 @@ fn main() {
                     }
                 }
             }
-            let deep = clean_paths(&["a", "b"], 7);
+            let deep = clean_paths(&["a", "ab"], 7);
             let nr = if thorough { 200_000 } else { 20_000 };
             for _ in 0..nr / workers {
                 let p = &deep[rng.gen_range(0..deep.len())];
@@ -156,7 +157,7 @@ fn main() {
                 out.rec(&rel(p, b));
             }
             // relative (non-absolute) clean operands, as in the rustdoc example
-            let relp: Vec<String> = clean_paths(&["a", "b"], 3).iter().filter(|x| x.len() > 1).map(|x| x[1..].to_string()).collect();
+            let relp: Vec<String> = clean_paths(&["a", "ab"], 3).iter().filter(|x| x.len() > 1).map(|x| x[1..].to_string()).collect();
             for p in &relp {
                 for b in &relp {
                     if mine(&mut id) {
